@@ -2994,6 +2994,10 @@ def replace_dilated_convolution(op, arch, nng=None):
     if pre_op.type != Op.SpaceToBatchND:
         return post_op
 
+    # The operators in between disappear: their results must not be used anywhere else
+    if len(post_op.inputs[0].consumer_list) != 1 or len(op.inputs[0].consumer_list) != 1:
+        return post_op
+
     pre_block = pre_op.inputs[1].values
     post_block = pre_op.inputs[1].values
     assert (pre_block == post_block).all
@@ -3032,6 +3036,10 @@ def merge_dequant_lut_quant(op, arch, nng=None):
 
     pre_op = lut_op.inputs[0].ops[0]
     if pre_op.type != Op.Dequantize:
+        return op
+
+    # The operators in between disappear: their results must not be used anywhere else
+    if len(post_op.inputs[0].consumer_list) != 1 or len(lut_op.inputs[0].consumer_list) != 1:
         return op
 
     # This rewrite also sees operators that stay on the CPU. Decide on a copy whether the merged table operator passes the
